@@ -30,16 +30,19 @@ pub(super) fn parser() -> impl Parser<StringView, Output = ExpressionPos, Error 
                 .map(|token| token.to_string())
                 .unwrap_or_else(|| "0".to_owned());
             let s = format!("{}.{}", left, frac_digits.as_str());
-            if opt_pound.is_some() {
-                match s.parse::<f64>() {
-                    Ok(f) => Ok(Expression::DoubleLiteral(f)),
-                    Err(err) => Err(err.into()),
-                }
-            } else {
+            // a literal is a finite number: one that is too big for a SINGLE
+            // is a DOUBLE, one that is too big for a DOUBLE is an overflow
+            if opt_pound.is_none() {
                 match s.parse::<f32>() {
-                    Ok(f) => Ok(Expression::SingleLiteral(f)),
-                    Err(err) => Err(err.into()),
+                    Ok(f) if f.is_finite() => return Ok(Expression::SingleLiteral(f)),
+                    Ok(_) => {}
+                    Err(err) => return Err(err.into()),
                 }
+            }
+            match s.parse::<f64>() {
+                Ok(f) if f.is_finite() => Ok(Expression::DoubleLiteral(f)),
+                Ok(_) => Err(ParserError::Overflow),
+                Err(err) => Err(err.into()),
             }
         })
         .with_pos()
